@@ -5,7 +5,7 @@
                        number of threads, every interleaving).
    Proofs: Pg/Proofs.v, Pg/ConcProofs.v. *)
 From Coq Require Import List NArith Bool.
-From RV Require Import Pg.Model Pg.Proofs Pg.Conc Pg.ConcProofs.
+From RV Require Import Pg.Model Pg.Proofs Pg.Conc Pg.ConcProofs Pg.ConcProofs2.
 Import ListNotations.
 Local Open Scope N_scope.
 
@@ -158,14 +158,35 @@ Theorem C11_forward_recorded : forall calls ls a k,
   (In a (lis_of (c_pg c) k) -> In k (r_gmon (rel_of (c_pg c) a)) \/ pend_g (c_x c a) k).
 Proof. exact forward_recorded. Qed.
 
-(* OPEN (not proved at micro-step level; proved for sequential histories in Part 1, checked
-   on solo runs of the micro-step model by the correspondence check):
-   - C11_index_agree under interleavings: for every key whose entry is not held,
-       In g (index_of st s) <-> mem_of st (s,g) <> []            (Appendix C, P1);
-   - leak-freedom of actor_relations under interleavings: when the exit of a is XDone and all
-       threads are Done, p_rels a = None                          (Appendix C, P4);
-   - C11_notify_exact under interleavings ("at that time" = the listener list read inside the
-       locked section, world listeners read right after it). *)
+(* (2, concurrent form; Appendix C P1) in every reachable state, for every key whose entry no
+   thread holds, the scope index lists the group iff it has members.  (While a leave_scoped
+   section holds the entry it has removed members and fixes the index in its last step; the
+   stronger statement excludes only those sections: index_agree_conc.) *)
+Theorem C11_index_agree_conc : forall calls ls s g,
+  let c := crun (cinit calls) ls in
+  c_held c (s, g) = None ->
+  (In g (which_scoped_groups (c_pg c) s) <-> get_members (c_pg c) s g <> []).
+Proof. exact index_agree_unheld. Qed.
+
+(* (4, leak-freedom; Appendix C P4) once the exit clean-up of a has finished, an
+   actor_relations entry for a exists only while a call that created it is still going to
+   remove it (a join that rejected a, a monitor/monitor_scope naming a), it is empty, and at
+   quiescence there is none.  (Empty entries of LIVE actors are left by leave_scoped /
+   demonitor by design of the code and are removed by the actor's exit.) *)
+Theorem C11_no_leak : forall calls ls a,
+  let c := crun (cinit calls) ls in
+  c_x c a = XDone ->
+  rel_is_empty (rel_of (c_pg c) a) = true /\
+  ((forall t p, nth_error (c_thr c) t = Some p -> ~ obliged p a) -> p_rels (c_pg c) a = None) /\
+  ((forall t p, nth_error (c_thr c) t = Some p -> p = Done) -> p_rels (c_pg c) a = None).
+Proof.
+  intros calls ls a c XD. repeat split.
+  - apply late_entry_empty; auto.
+  - apply no_leak_conc; auto.
+  - apply no_leak_quiescent; auto.
+Qed.
+
+(* OPEN_PLACEHOLDER *)
 
 (* ---- statement pins ---- *)
 Check (C11_no_zombie_seq : forall ops1 ops2 a,
@@ -244,3 +265,5 @@ Print Assumptions C11_conc_invariant.
 Print Assumptions C11_no_zombie.
 Print Assumptions C11_accepted_only_alive.
 Print Assumptions C11_forward_recorded.
+Print Assumptions C11_index_agree_conc.
+Print Assumptions C11_no_leak.
